@@ -2,7 +2,7 @@
 javac-compiled decompiler output as the candidate.
 
 A method = {"ret": "I"|"J", "params": ["I"|"J", ...], "body": [stmt]}.  Registers: i0..i3 = v0..v3 (int), l0, l1 = v4/v5, v6/v7
-(long), c0, c1 = v8, v9 (loop counters, int); parameters follow from v10.  Statements:
+(long), c0, c1 = v8, v9 (loop counters, int), s0 = v10 (scratch of switch); parameters follow from v11.  Statements:
   ("bin", op, form, dst, a, b|lit)   form in 3 (three registers), 2 (2addr), 16 (lit16), 8 (lit8); int ops on int registers
   ("binl", op, form, dst, a, b)      long ops, form 3 or 2; for shifts b is an int register
   ("un", op, dst, src)               neg-int not-int neg-long not-long int-to-long long-to-int int-to-byte int-to-char int-to-short
@@ -10,7 +10,7 @@ A method = {"ret": "I"|"J", "params": ["I"|"J", ...], "body": [stmt]}.  Register
   ("cmpl", dst_int, a_long, b_long)
   ("if", cmp, a, b|None, then, else)  cmp in eq ne lt ge gt le; b None = compare with zero; int registers
   ("loop", counter, n, body)         counter = n; while (counter > 0) { body; counter -= 1 }
-  ("switch", reg, [case bodies], default body)   packed switch on (reg & 3) copied to a scratch int register
+  ("switch", reg, [case bodies], default body)   packed switch on (reg & 3) copied to the scratch register s0 (never a loop counter: a switch inside a loop must not clobber the counter)
   ("ret", reg)
 """
 import os
@@ -20,9 +20,9 @@ import struct
 import subprocess
 import tempfile
 
-INT_REGS = {"i0": 0, "i1": 1, "i2": 2, "i3": 3, "c0": 8, "c1": 9}
+INT_REGS = {"i0": 0, "i1": 1, "i2": 2, "i3": 3, "c0": 8, "c1": 9, "s0": 10}      # s0: scratch of the switch statement
 LONG_REGS = {"l0": 4, "l1": 6}
-NLOCALS = 10
+NLOCALS = 11
 BINOPS = ["add", "sub", "mul", "div", "rem", "and", "or", "xor", "shl", "shr", "ushr"]
 LIT16 = {"add": 0xD0, "rsub": 0xD1, "mul": 0xD2, "div": 0xD3, "rem": 0xD4, "and": 0xD5, "or": 0xD6, "xor": 0xD7}
 LIT8 = {"add": 0xD8, "rsub": 0xD9, "mul": 0xDA, "div": 0xDB, "rem": 0xDC, "and": 0xDD, "or": 0xDE, "xor": 0xDF, "shl": 0xE0, "shr": 0xE1, "ushr": 0xE2}
@@ -149,6 +149,32 @@ def gen_pattern(rng, idx):
     return {"name": "m%d" % idx, "ret": pt, "params": [pt, "I"], "body": body}
 
 
+def gen_const_fold(rng, idx):
+    """operations whose operands are compile-time constants (const + literal forms, const + const), accumulated into the result:
+    whatever the decompiler folds or propagates has to keep Dalvik's arithmetic (truncating division, sign of the remainder,
+    wrap-around, shift counts)"""
+    body = [("const", r, 0) for r in ("i0", "i1", "i2", "i3")] + [("const", r, 0) for r in ("l0", "l1")]
+    ks = (-7, 7, -1, 1, -32768, 2147483647, -2147483648, 5, 100, -100, 0, 65535)
+    for _ in range(rng.randint(3, 6)):
+        k = rng.choice(ks)
+        r = rng.random()
+        if r < 0.45:
+            op = rng.choice(("div", "rem", "div", "rem", "add", "rsub", "mul", "and", "or", "xor", "shl", "shr", "ushr"))
+            lit = rng.choice((2, -2, 3, -3, 100, 127, -128, 1, -1, 31, 33))
+            if op in ("shl", "shr", "ushr"):
+                lit = rng.choice((1, 5, 31, 33, -1))
+            body += [("const", "i0", k), ("bin", op, 8, "i1", "i0", lit)]
+        elif r < 0.7:
+            op = rng.choice(("div", "rem", "add", "rsub", "mul", "and", "or", "xor"))
+            body += [("const", "i0", k), ("bin", op, 16, "i1", "i0", rng.choice((2, -2, 1000, -1000, 32767, -32768, 7, -7)))]
+        else:
+            op = rng.choice(("div", "rem", "div", "rem", "sub", "mul", "shl", "shr", "ushr", "add"))
+            body += [("const", "i0", k), ("const", "i3", rng.choice((2, -2, 3, -3, 33, -1, 7, 100))), ("bin", op, 3, "i1", "i0", "i3")]
+        body += [("bin", "mul", 8, "i2", "i2", 31), ("bin", "add", 3, "i2", "i2", "i1")]
+    body.append(("ret", "i2"))
+    return {"name": "m%d" % idx, "ret": "I", "params": ["I"], "body": body}
+
+
 # ---------------------------------------------------------------------------------------------------------- assembling
 def regmap(m):
     r = dict(INT_REGS)
@@ -202,8 +228,8 @@ def assemble(m):
             _, reg, cases, default = s
             labs = [lab() for _ in cases]
             l_end = lab()
-            ins.append(("bin", "and", 8, "c1" if reg != "c1" else "c0", reg, 3))
-            ins.append(("pswitch", "c1" if reg != "c1" else "c0", labs))
+            ins.append(("bin", "and", 8, "s0", reg, 3))
+            ins.append(("pswitch", "s0", labs))
             emit_block(default)
             ins.append(("goto", l_end))
             for lb, body in zip(labs, cases):
@@ -211,7 +237,10 @@ def assemble(m):
                 emit_block(body)
                 ins.append(("goto", l_end))
             ins.append(("label", l_end))
-    emit_block(m["body"])
+    if "flat" in m:
+        ins.extend(m["flat"])          # C22: a ready-made flat list (labels, br, goto, ...) for unstructured control flow
+    else:
+        emit_block(m["body"])
 
     def size(i):
         k = i[0]
